@@ -119,6 +119,8 @@ impl<'a, 'o, 'c> CommonMarkFormatter<'a, 'o, 'c> {
 
         let mut k = self.v.len() as i32 - 1;
         while self.need_cr > 0 {
+            #[cfg(comrak_verif)]
+            crate::verif::step();
             if k < 0 || self.v[k as usize] == b'\n' {
                 k -= 1;
             } else {
@@ -136,6 +138,8 @@ impl<'a, 'o, 'c> CommonMarkFormatter<'a, 'o, 'c> {
 
         let mut i = 0;
         while i < buf.len() {
+            #[cfg(comrak_verif)]
+            crate::verif::step();
             if self.begin_line {
                 self.v.extend(&self.prefix);
                 self.column = self.prefix.len();
@@ -154,6 +158,8 @@ impl<'a, 'o, 'c> CommonMarkFormatter<'a, 'o, 'c> {
                     self.begin_line = false;
                     self.begin_content = false;
                     while buf.get(i + 1) == Some(&(b' ')) {
+                        #[cfg(comrak_verif)]
+                        crate::verif::step();
                         i += 1;
                     }
                     if !buf.get(i + 1).map_or(false, |&c| isdigit(c)) {
@@ -272,11 +278,15 @@ impl<'a, 'o, 'c> CommonMarkFormatter<'a, 'o, 'c> {
         let mut stack = vec![(node, Phase::Pre)];
 
         while let Some((node, phase)) = stack.pop() {
+            #[cfg(comrak_verif)]
+            crate::verif::step();
             match phase {
                 Phase::Pre => {
                     if self.format_node(node, true) {
                         stack.push((node, Phase::Post));
                         for ch in node.reverse_children() {
+                            #[cfg(comrak_verif)]
+                            crate::verif::step();
                             stack.push((ch, Phase::Pre));
                         }
                     }
@@ -507,6 +517,8 @@ impl<'a, 'o, 'c> CommonMarkFormatter<'a, 'o, 'c> {
             let mut current_len = listmarker.len();
 
             while current_len < self.options.render.ol_width {
+                #[cfg(comrak_verif)]
+                crate::verif::step();
                 write!(listmarker, " ").unwrap();
                 current_len += 1;
             }
@@ -523,6 +535,8 @@ impl<'a, 'o, 'c> CommonMarkFormatter<'a, 'o, 'c> {
             }
             self.begin_content = true;
             for _ in 0..marker_width {
+                #[cfg(comrak_verif)]
+                crate::verif::step();
                 write!(self.prefix, " ").unwrap();
             }
         } else {
@@ -545,6 +559,8 @@ impl<'a, 'o, 'c> CommonMarkFormatter<'a, 'o, 'c> {
     fn format_heading(&mut self, nch: &NodeHeading, entering: bool) {
         if entering {
             for _ in 0..nch.level {
+                #[cfg(comrak_verif)]
+                crate::verif::step();
                 write!(self, "#").unwrap();
             }
             write!(self, " ").unwrap();
@@ -593,6 +609,8 @@ impl<'a, 'o, 'c> CommonMarkFormatter<'a, 'o, 'c> {
                 let fence_char = if info.contains(&b'`') { b'~' } else { b'`' };
                 let numticks = max(3, longest_char_sequence(literal, fence_char) + 1);
                 for _ in 0..numticks {
+                    #[cfg(comrak_verif)]
+                    crate::verif::step();
                     write!(self, "{}", fence_char as char).unwrap();
                 }
                 if !info.is_empty() {
@@ -603,6 +621,8 @@ impl<'a, 'o, 'c> CommonMarkFormatter<'a, 'o, 'c> {
                 self.write_all(literal).unwrap();
                 self.cr();
                 for _ in 0..numticks {
+                    #[cfg(comrak_verif)]
+                    crate::verif::step();
                     write!(self, "{}", fence_char as char).unwrap();
                 }
             }
@@ -670,6 +690,8 @@ impl<'a, 'o, 'c> CommonMarkFormatter<'a, 'o, 'c> {
         if entering {
             let numticks = shortest_unused_sequence(literal, b'`');
             for _ in 0..numticks {
+                #[cfg(comrak_verif)]
+                crate::verif::step();
                 write!(self, "`").unwrap();
             }
 
@@ -688,6 +710,8 @@ impl<'a, 'o, 'c> CommonMarkFormatter<'a, 'o, 'c> {
                 write!(self, " ").unwrap();
             }
             for _ in 0..numticks {
+                #[cfg(comrak_verif)]
+                crate::verif::step();
                 write!(self, "`").unwrap();
             }
         }
@@ -857,6 +881,8 @@ impl<'a, 'o, 'c> CommonMarkFormatter<'a, 'o, 'c> {
                 self.cr();
                 write!(self, "|").unwrap();
                 for a in alignments {
+                    #[cfg(comrak_verif)]
+                    crate::verif::step();
                     write!(
                         self,
                         " {} |",
@@ -945,6 +971,8 @@ fn longest_char_sequence(literal: &[u8], ch: u8) -> usize {
     let mut longest = 0;
     let mut current = 0;
     for c in literal {
+        #[cfg(comrak_verif)]
+        crate::verif::step();
         if *c == ch {
             current += 1;
         } else {
@@ -966,6 +994,8 @@ fn shortest_unused_sequence(literal: &[u8], f: u8) -> usize {
     let mut used = std::collections::BTreeSet::new();
     let mut current = 0;
     for c in literal {
+        #[cfg(comrak_verif)]
+        crate::verif::step();
         if *c == f {
             current += 1;
         } else {
@@ -982,6 +1012,8 @@ fn shortest_unused_sequence(literal: &[u8], f: u8) -> usize {
 
     let mut i = 1;
     while used.contains(&i) {
+        #[cfg(comrak_verif)]
+        crate::verif::step();
         i += 1;
     }
     i
@@ -1039,6 +1071,8 @@ fn minimize_commonmark(text: &mut Vec<u8>, original_options: &Options) {
 
     let mut adjust = 0;
     for ix in ixs {
+        #[cfg(comrak_verif)]
+        crate::verif::step();
         text.remove(ix - adjust);
 
         let arena = Arena::new();
